@@ -696,6 +696,47 @@ func boundsRun(c *core.Ctx, cs *boundsCase, bucket string) {
 	c.Case(bucket, string(key), len(cs.Values) >= 2)
 }
 
+func byteSweep(c *core.Ctx) {
+	for _, k := range kinds {
+		w := k.Width
+		if !k.Num {
+			if len(k.Domain) == 0 || k.Trunc && k.Name != "flba5" || k.Model == "decimal" && k.Name != "decflba" {
+				continue
+			}
+			w = len(k.Domain[0].Bytes())
+			for _, d := range k.Domain {
+				if len(d.Bytes()) != w {
+					w = 0
+				}
+			}
+		}
+		if w < 2 || k.Name == "int8" || k.Name == "uint16" || k.Name == "bool" {
+			continue
+		}
+		for p := 0; p < w; p++ {
+			for _, n := range []int{15, 16, 17, 33, 64, 70} {
+				for _, dict := range []bool{false, true} {
+					if dict && (!canDict(k) || n > 33) {
+						continue
+					}
+					cs := &boundsCase{Kind: k.Name, Dict: dict}
+					for i := 0; i < n; i++ {
+						b := bytes.Repeat([]byte{0x40}, w)
+						if i == n/3 {
+							b[p] = 0x3f
+						}
+						if i == 2*n/3 {
+							b[p] = 0x41
+						}
+						cs.Values = append(cs.Values, k.tok(k.Typ.Kind().Value(b)))
+					}
+					boundsRun(c, cs, "sweep/bounds/"+k.Name)
+				}
+			}
+		}
+	}
+}
+
 func randValues(c *core.Ctx, k *kind, n int, nanRate int) []parquet.Value {
 	idx := walk(c, c.Rng.Intn(4), n, len(k.Domain))
 	out := make([]parquet.Value, n)
@@ -1780,6 +1821,11 @@ func runC05(c *core.Ctx) {
 			c.Sample(cs)
 		}
 	}
+	// byte-position sweep: pages of 15..70 equal values in which one value is
+	// greater and one smaller in exactly one byte (vector kernels permute the
+	// bytes of the values; a wrong permutation entry only shows when every
+	// other byte ties)
+	byteSweep(c)
 	// page and dictionary bounds
 	nB := c.N(8000, 50000)
 	for i := 0; i < nB; i++ {
